@@ -1203,7 +1203,13 @@ func ruleSQLOrigin(c *Ctx) {
 					// site passes a constant
 					okSites := false
 					if fd := findFuncDecl(b.Pkg, s.Pos); fd != nil {
+						// … or of a local closure: constant iff every call of the closure passes one
 						if pid, isId := ast.Unparen(s.SQLArg).(*ast.Ident); isId {
+							if nCalls, allConst, isLitPar := closureParamConst(b, fd, info.Uses[pid]); isLitPar {
+								okSites = nCalls > 0 && allConst
+							}
+						}
+						if pid, isId := ast.Unparen(s.SQLArg).(*ast.Ident); isId && !okSites {
 							if pv, isVar := info.Uses[pid].(*types.Var); isVar && isParamVar(info, fd.Type, pv) {
 								idx := -1
 								k := 0
@@ -1829,6 +1835,17 @@ func ruleStmtPrepared(c *Ctx) {
 			if !ok {
 				return nil
 			}
+			// a local closure that prepares into the variable it is handed by address
+			if v, isVar := calleeOf(info, call).(*types.Var); isVar {
+				if pi, _, isHelper := prepareHelperObj(b.Pkg, v, b.Perform.Body); isHelper && pi < len(call.Args) {
+					if u, ok := ast.Unparen(call.Args[pi]).(*ast.UnaryExpr); ok && u.Op == token.AND {
+						if id, ok := ast.Unparen(u.X).(*ast.Ident); ok {
+							return []string{"ready:" + id.Name}
+						}
+					}
+				}
+				return nil
+			}
 			fn, ok := calleeOf(info, call).(*types.Func)
 			if !ok {
 				return nil
@@ -1962,4 +1979,76 @@ func txWrapperOf(pk *packages.Package, fd *ast.FuncDecl) (*ast.FuncDecl, *ast.Fu
 		return nil, nil, nil
 	}
 	return wfd, lit, wcall
+}
+
+// closureParamConst: par is a parameter of a function literal of fd that is bound to a local
+// variable; reports the number of calls of that variable and whether each passes constant SQL text
+// in par's position.
+func closureParamConst(b *backend, fd *ast.FuncDecl, par types.Object) (nCalls int, allConst bool, isLitPar bool) {
+	info := b.Pkg.TypesInfo
+	if par == nil || fd.Body == nil {
+		return 0, false, false
+	}
+	var lit *ast.FuncLit
+	idx := -1
+	ast.Inspect(fd.Body, func(nd ast.Node) bool {
+		fl, ok := nd.(*ast.FuncLit)
+		if !ok {
+			return true
+		}
+		k := 0
+		for _, f := range fl.Type.Params.List {
+			for _, nm := range f.Names {
+				if info.Defs[nm] == par {
+					lit, idx = fl, k
+				}
+				k++
+			}
+		}
+		return true
+	})
+	if lit == nil {
+		return 0, false, false
+	}
+	// the variable the literal is bound to
+	var v types.Object
+	ast.Inspect(fd.Body, func(nd ast.Node) bool {
+		if as, ok := nd.(*ast.AssignStmt); ok && len(as.Lhs) == len(as.Rhs) {
+			for i, r := range as.Rhs {
+				if ast.Unparen(r) == ast.Expr(lit) {
+					if id, ok := as.Lhs[i].(*ast.Ident); ok {
+						v = info.Defs[id]
+						if v == nil {
+							v = info.Uses[id]
+						}
+					}
+				}
+			}
+		}
+		return true
+	})
+	if v == nil || closureOf(info, fd.Body, v) != lit {
+		return 0, false, true
+	}
+	allConst = true
+	for _, call := range callsInDeep(fd.Body) {
+		if calleeOf(info, call) == v && idx < len(call.Args) {
+			nCalls++
+			if _, _, h2, ok2 := b.sqlTextOf(call.Args[idx]); !ok2 || len(h2) > 0 {
+				allConst = false
+			}
+		}
+	}
+	// the closure must not escape (be passed on or stored): every use of v is a call
+	uses := 0
+	ast.Inspect(fd.Body, func(nd ast.Node) bool {
+		if id, ok := nd.(*ast.Ident); ok && info.Uses[id] == v {
+			uses++
+		}
+		return true
+	})
+	if uses != nCalls {
+		allConst = false
+	}
+	return nCalls, allConst, true
 }
